@@ -37,6 +37,11 @@ def run(ctx):
         jobs.append(({'x': '1'}, prog, 'dfs', 2 * n, ctx['seed'], ('--pb', '2')))
     # back-to-back updates with a reader arriving between the switch and the version toggle
     jobs.append(({'x': '1'}, [['update 1', 'update 2', 'update 3'], ['read', 'read'], ['read']], 'dfs', 4 * n, ctx['seed'], ('--pb', '3')))
+    # read() returns what the functor returns BY VALUE (copied while the reader is registered), also for a functor returning a reference
+    for k in range(3):
+        jobs.append(({'x': '1'}, [['update %d' % (k + 1), 'update 2'], ['readref', 'readref'], ['read', 'readref']], 'random', n, ctx['seed'] + k, ()))
+    jobs.append(({'x': '1'}, [['update 1', 'update 2'], ['readref', 'readref']], 'dfs', 4 * n, ctx['seed'], ('--pb', '3')))
+    jobs.append(({'x': '1', 'race': '1'}, [['update 1', 'update 2'], ['readref', 'readref']], 'random', n, ctx['seed'], ()))
     do_search(ctx, H, jobs, 'left_right')
     if tie and not ctx['V'].violations:
         # model and code disagree (e.g. on a memory order) and SC interleavings show no failure: look among the weak executions of C03
